@@ -40,4 +40,21 @@ def make(name, **kw):
         if name == "Douglas":
             base["n_cuts"] = 1
     base.update(kw)
-    return cls(name)(**base)
+    route = base.pop("_route", "ctor")
+    if route == "ctor":
+        return cls(name)(**base)
+    # scikit-learn protocol routes: every hyperparameter arrives through set_params on an estimator built with the library defaults
+    # (what clone().set_params() and the model-selection tools do); "used_set_params" first uses the default estimator once
+    m = cls(name)()
+    if route == "used_set_params":
+        import warnings
+        import numpy as np
+        with warnings.catch_warnings():
+            warnings.simplefilter("ignore")
+            try:
+                m.set_params(max_iter=1) if "max_iter" in m.get_params() else None
+                m.fit(np.random.RandomState(5).normal(size=(9, 2)))
+            except Exception:  # noqa
+                pass
+    m.set_params(**base)
+    return m
